@@ -263,6 +263,19 @@ namespace via
       }
     }
 
+    /// Determine whether the server still holds the http_connection for a
+    /// connection, i.e. the connection has not been disconnected.
+    /// @param pointer the raw pointer of the connection.
+    /// @return true if the connection is in http_connections_.
+    bool is_held(void* pointer) const
+    {
+#ifdef HTTP_THREAD_SAFE
+      return http_connections_.find(pointer).first == pointer;
+#else
+      return http_connections_.find(pointer) != http_connections_.end();
+#endif
+    }
+
     /// Receive data packets on an underlying communications connection.
     /// @param data pointer to the receive buffer.
     /// @param size the number of bytes received.
@@ -303,7 +316,10 @@ namespace via
       auto rx_state(http::Rx::VALID);
 
       // Loop around the received buffer while there's valid data to read
-      while ((iter != end) && (rx_state != http::Rx::INVALID))
+      // Note: a handler may disconnect the connection, after which the
+      // application must not be sent any further events for it.
+      while ((iter != end) && (rx_state != http::Rx::INVALID) &&
+             is_held(pointer))
       {
         rx_state = http_connection->rx().receive(iter, end);
 
